@@ -39,8 +39,6 @@ import (
 	"verifharness/internal/h"
 )
 
-const sigShared = "C23.shared-default-client-ack"
-
 const url = "opc.tcp://127.0.0.1:4840"
 
 type env struct {
@@ -261,8 +259,8 @@ func progLine(cs []client) string {
 func hx(s string) string { return h.Hex([]byte(s)) }
 
 // writesShared: some client uses one of the options that assign through
-// dialer.ClientACK while its dialer is still the default one — the narrow,
-// decidable signature of the known finding.
+// dialer.ClientACK while its dialer is still the default one (the programs that
+// exposed the repaired defect C23.shared-default-client-ack; distribution only).
 func writesShared(cs []client) bool {
 	for _, c := range cs {
 		own := false
@@ -287,6 +285,9 @@ func (e *env) run(line string) {
 		return
 	}
 	e.r.Count(line, len(cs) >= 2)
+	if writesShared(cs) {
+		e.r.Hit("default-dialer-buffer-option-used")
+	}
 	e.r.Hit(fmt.Sprintf("clients:%d", min(len(cs), 4)))
 
 	// ---- 1. the real program
@@ -369,19 +370,10 @@ func (e *env) run(line string) {
 		e.r.Hit("oracle:isolated")
 	} else {
 		sort.Strings(bad)
-		sig := ""
 		if writesShared(cs) {
-			sig = sigShared
-			for _, b := range bad {
-				if !strings.Contains(b, " dialer.ClientACK.") {
-					sig = "" // something else leaks as well: not the known finding
-				}
-			}
+			e.r.Hit("oracle-fail:through-default-client-ack") // the shape of the repaired C23.shared-default-client-ack
 		}
-		e.r.Fail(line, sig, bad[0]+fmt.Sprintf(" (%d differences)", len(bad)))
-		if sig != "" {
-			e.r.Confirm(sig, line+": "+bad[0])
-		}
+		e.r.Fail(line, "", bad[0]+fmt.Sprintf(" (%d differences)", len(bad)))
 	}
 
 	// ---- 3. the program as the model sees it: per option instance, what it assigns (isolated, pristine)
@@ -641,7 +633,7 @@ func main() {
 		r.Notes = append(r.Notes, "wire observation skipped: "+hel)
 	}
 	want := []string{"clients:1", "clients:2", "clients:3", "clients:4", "client-construction-fails", "step:redirect-to-caller-object",
-		"step:redirect-fresh", "oracle:isolated", "oracle-fail:" + sigShared}
+		"step:redirect-fresh", "oracle:isolated", "default-dialer-buffer-option-used", "wire:second-client-sends-defaults"}
 	for _, n := range optionNames {
 		want = append(want, "opt:"+n)
 	}
